@@ -1,5 +1,7 @@
 package main
 
+import "fmt"
+
 // Corpus: cases taken from /repo/go/testdata/nsx.t and the minimal witnesses of the findings; run first.
 
 func grp(id string, addrs ...string) Group {
@@ -105,6 +107,23 @@ func corpus() []*Case {
 				&Config{Groups: []Group{grp(order[0], addrs[order[0]]...), grp(order[1], addrs[order[1]]...)},
 					Policies: []Policy{{"Netspoc-v1", []Rule{mk(rorder[0], order[0], 50), mk(rorder[1], order[1], 51)}}}})
 		}
+	}
+	// service definitions over the field grid: every ordered pair (manager, target) of the corner
+	// definitions of svcGridPairs, eight services per case, each used by one rule that does not change
+	pairs := svcGridPairs()
+	for lo := 0; lo < len(pairs); lo += 8 {
+		hi := min(lo+8, len(pairs))
+		store, tgt := &Config{Policies: []Policy{{Id: "Netspoc-v1"}}}, &Config{Policies: []Policy{{Id: "Netspoc-v1"}}}
+		for i, pr := range pairs[lo:hi] {
+			id := fmt.Sprintf("sg%d", i)
+			ru := rul(fmt.Sprintf("r%d", i+1), "10.1.1.10", fmt.Sprintf("10.2.1.%d", 10+i), id)
+			ru.Seq = 10 + i
+			store.Services = append(store.Services, Service{"Netspoc-" + id, pr[0]})
+			tgt.Services = append(tgt.Services, Service{"Netspoc-" + id, pr[1]})
+			store.Policies[0].Rules = append(store.Policies[0].Rules, ru)
+			tgt.Policies[0].Rules = append(tgt.Policies[0].Rules, ru)
+		}
+		add(fmt.Sprintf("service-grid-%02d", lo/8), store, tgt, nil)
 	}
 	// witness: raw policy whose id lacks the prefix
 	add("raw-policy-without-prefix",
